@@ -240,6 +240,9 @@ pub enum Rel {
   /// measurement (which odd) of one triple is the 4-byte LE / 4-byte BE / decimal text of the
   /// other triple's threshold, and vice versa
   TradePlaces { which: u8, other_t: u32 },
+  /// bytes move across the epoch / threshold boundary: the tail of one epoch (1-3 bytes) becomes the
+  /// low-order (LE) or high-order (BE) bytes of the other triple's threshold
+  EpochThresholdShift { take: u8, big_endian: bool },
 }
 
 #[derive(Clone, Debug, Serialize, Deserialize)]
@@ -262,6 +265,7 @@ fn diff_strat(_t: Tier) -> BoxedStrategy<DiffCase> {
     3 => (0u8..2, any::<u16>(), 1u8..=255).prop_map(|(which, at, delta)| Rel::ByteChange { which, at, delta }),
     2 => triple(200).prop_map(|other| Rel::Unrelated { other }),
     2 => (0u8..6, prop_oneof![3 => 1u32..9, 1 => any::<u32>()]).prop_map(|(which, other_t)| Rel::TradePlaces { which, other_t }),
+    2 => (1u8..4, any::<bool>()).prop_map(|(take, big_endian)| Rel::EpochThresholdShift { take, big_endian }),
   ];
   (triple(300), rel).prop_map(|(tr, rel)| DiffCase { tr, rel }).boxed()
 }
@@ -343,6 +347,38 @@ fn related(c: &DiffCase) -> (Triple, Triple, &'static str) {
       (a2, b, if *which == 0 { "epoch-one-byte" } else { "measurement-one-byte" })
     }
     Rel::Unrelated { other } => (a, other.clone(), "unrelated"),
+    Rel::EpochThresholdShift { take, big_endian } => {
+      // a = (m, e0 ++ x, t) with a small t; b = (m, e0, t') where t' spells x followed by t's
+      // significant bytes (LE) or t's significant bytes followed by x (BE)
+      let mut e = a.e.0.clone();
+      while e.len() < *take as usize + 1 {
+        e.push(0x31 + e.len() as u8);
+      }
+      let k = (*take as usize).min(3);
+      let (e0, x) = e.split_at(e.len() - k);
+      let t_small = (a.t % 200).max(1); // one significant byte
+      let mut bytes: Vec<u8> = if *big_endian {
+        let mut v = vec![t_small as u8];
+        v.extend_from_slice(x);
+        v
+      } else {
+        let mut v = x.to_vec();
+        v.push(t_small as u8);
+        v
+      };
+      bytes.resize(4, 0);
+      let t2 = if *big_endian {
+        // significant bytes first: value = t_small * 256^k + x (as big-endian digits)
+        let mut v: u32 = t_small;
+        for b in x {
+          v = (v << 8) | *b as u32;
+        }
+        v
+      } else {
+        u32::from_le_bytes([bytes[0], bytes[1], bytes[2], bytes[3]])
+      };
+      (Triple { m: a.m.clone(), e: Hx(e.clone()), t: t_small }, Triple { m: a.m.clone(), e: Hx(e0.to_vec()), t: t2 }, "epoch-threshold-boundary-shift")
+    }
     Rel::TradePlaces { which, other_t } => {
       let t1 = a.t;
       let t2 = if *other_t == t1 { t1.wrapping_add(1) } else { *other_t };
